@@ -40,6 +40,16 @@ def parseOp : List String → Option Op
       let v ← parsePlain "" c
       if v = "" then none else some (some v)
     some (.req hdr ck)
+  | ["phc", ds, v, m, p, q] => do
+    let ds ← match ds with
+      | "1" => some [Variant.sha256] | "2" => some [Variant.sha512] | "3" => some [Variant.sha256, Variant.sha512]
+      | _ => none
+    let v ← if v = "256" then some Variant.sha256 else if v = "512" then some Variant.sha512 else none
+    let m ← match m with
+      | "0" => some Mangle.none | "1" => some Mangle.noLead | "2" => some Mangle.lead | "3" => some Mangle.swap
+      | "4" => some Mangle.unknownId | "5" => some Mangle.emptyKey | "6" => some Mangle.extra | "7" => some Mangle.cut
+      | _ => none
+    some (.phc ds v m (← parseName p) (← parseName q))
   | _ => none
 
 def errStr : SvcErr → String
@@ -56,6 +66,10 @@ def render : Ans → String
   | .okKey k u => s!"ok {hexN k} {u}"
   | .err e => errStr e
   | .pw r => renderPw r
+  | .phc (.matched b) => boolStr b
+  | .phc (.err .fmt) => "err fmt"
+  | .phc (.err .ident) => "err ident"
+  | .phc (.err .key) => "err key"
   | .panic => "panic:runtime_error:_integer_divide_by_zero"
   | .http st reached pset uid =>
     s!"{st} {boolStr reached} " ++ (match pset with | none => "-" | some true => "ok" | some false => "err") ++ s!" {uid}"
@@ -81,6 +95,14 @@ def parseAns (op : Op) (s : String) : Option Ans :=
   if s.startsWith "panic:" then some .panic else
   match op with
   | .sp .. | .cp .. | .cas .. => (parsePw s).map .pw
+  | .phc .. =>
+    match tokens s with
+    | ["1"] => some (.phc (.matched true))
+    | ["0"] => some (.phc (.matched false))
+    | ["err", "fmt"] => some (.phc (.err .fmt))
+    | ["err", "ident"] => some (.phc (.err .ident))
+    | ["err", "key"] => some (.phc (.err .key))
+    | _ => none
   | .req .. =>
     match tokens s with
     | [st, r, p, u] => do
@@ -103,11 +125,12 @@ def step (s : State) (toks : List String) : State × String :=
 def opTag : Op → String
   | .cfg .. => "cfg" | .strong _ => "strong" | .cu _ => "cu" | .us .. => "us" | .du _ => "du" | .sp .. => "sp"
   | .cp .. => "cp" | .cas .. => "cas" | .ct .. => "ct" | .ut .. => "ut" | .dt _ => "dt" | .cs .. => "cs"
-  | .xs _ => "xs" | .req .. => "req"
+  | .xs _ => "xs" | .req .. => "req" | .phc .. => "phc"
 
 def ansTag : Ans → String
   | .pw r => if r.ok then "ok" else "refused"
   | .http st _ pset _ => toString st ++ (match pset with | some false => "-nopset" | _ => "")
+  | .phc (.matched true) => "match" | .phc (.matched false) => "nomatch" | .phc (.err _) => "undecodable"
   | .err _ => "err" | .panic => "panic" | _ => "ok"
 
 def oracle (obs : List (List String × String)) : Verdict :=
@@ -124,6 +147,7 @@ def oracle (obs : List (List String × String)) : Verdict :=
       | .cp .., .pw r => r.ok
       | .cas .., .pw r => r.ok
       | .req .., .http 200 .. => true
+      | .phc .., .phc (.matched true) => true
       | _, _ => false
     if t.ok then { ok := true, nontrivial := nt, tags := tags }
     else { ok := false, nontrivial := true, tags := tags, reason := t.why ++ ":" ++ toString tr.length }
